@@ -726,6 +726,7 @@ func (x *Exec) rangeStmt(s *ast.RangeStmt, st *State, cs []*ctl, label string) [
 	// integer range
 	var n *Term
 	var elemAt func(st *State, i *Term) Value
+	var mapKeyT, mapValT types.Type
 	var elemT types.Type
 	if ii, ok := intInfoOf(xt); ok {
 		nv := x.scalar(x.expr(s.X, st))
@@ -738,6 +739,16 @@ func (x *Exec) rangeStmt(s *ast.RangeStmt, st *State, cs []*ctl, label string) [
 			n = sl.Len
 			elemT = u.Elem()
 			elemAt = func(st *State, i *Term) Value { return x.readElem(st, sl, elemT, i) }
+		case *types.Map:
+			if x.coarse {
+				// coarse units: an unknown number of iterations over unknown
+				// keys and values (iteration order and content are not modelled)
+				cnt := x.freshTerm("maplen", x.ar.idxSort())
+				st.add(x.ar.le(x.ar.idxC(0), cnt, idxII))
+				n = cnt
+				mapKeyT, mapValT = u.Key(), u.Elem()
+				x.abstr["range over map "+x.src(s.X)+": keys/values unknown"] = true
+			}
 		case *types.Array:
 			av, ok := cv.(Ar)
 			if !ok {
@@ -762,6 +773,15 @@ func (x *Exec) rangeStmt(s *ast.RangeStmt, st *State, cs []*ctl, label string) [
 	}
 	setIter := func(sb *State, i *Term) {
 		sb.ghosts[itName] = Sc{i}
+		if mapKeyT != nil {
+			if keyVar != nil {
+				sb.vars[keyVar] = x.fresh(sb, mapKeyT, "mapkey")
+			}
+			if valVar != nil {
+				sb.vars[valVar] = x.fresh(sb, mapValT, "mapval")
+			}
+			return
+		}
 		if keyVar != nil {
 			kii, _ := intInfoOf(keyVar.Type())
 			sb.vars[keyVar] = Sc{x.ar.convert(i, idxII, kii)}
@@ -1051,7 +1071,9 @@ func (x *Exec) markContractMod(m *modSet, c *Contract, fn *types.Func, call *ast
 	if i := strings.Index(mod, "."); i >= 0 {
 		pname, f := mod[:i], mod[i+1:]
 		if strings.HasPrefix(f, "#") || strings.HasPrefix(f, "G_") {
-			m.heapKeys["ghost:"+strings.TrimPrefix(strings.TrimPrefix(f, "#"), "G_")] = true
+			for _, g := range x.eng.cs.expandGhost(strings.TrimPrefix(strings.TrimPrefix(f, "#"), "G_")) {
+				m.heapKeys["ghost:"+g] = true
+			}
 			return
 		}
 		// heap field of the parameter's struct type
@@ -1141,8 +1163,14 @@ func (x *Exec) nextEpoch() int { x.epochN++; return x.epochN }
 
 func (x *Exec) returnStmt(s *ast.ReturnStmt, st *State) {
 	if x.litReturn != nil {
-		for _, e := range s.Results {
-			x.expr(e, st)
+		for i, e := range s.Results {
+			v := x.expr(e, st)
+			if i == 0 && len(s.Results) == 1 {
+				if _, isTu := v.(Tu); !isTu {
+					st.ghosts["litresult"] = v
+					x.ghostTypes["litresult"] = x.info.TypeOf(e)
+				}
+			}
 		}
 		*x.litReturn = append(*x.litReturn, st)
 		return
